@@ -58,7 +58,7 @@ def path_single(ctx, job, box):
             run.check(frame(L, run.pre, run.post), '%s changed the cursor or other state' % op)]
 
 
-FIRST = ['insert_characters', 'delete_characters', 'erase_in_line', 'erase_characters', 'irm_draw', 'draw']
+FIRST = ['insert_characters', 'delete_characters', 'erase_in_line', 'erase_characters', 'irm_draw', 'draw', 'resize']
 
 
 def do_first(ctx, run, kind, idx):
@@ -68,6 +68,10 @@ def do_first(ctx, run, kind, idx):
         run.call(kind, sym_opt_u32(ctx, 'n%d' % idx, 0, 3), NONE)
     elif kind in ('irm_draw', 'draw'):
         run.call('draw', Str.of('Z'))
+    elif kind == 'resize':
+        # a narrower (or wider) screen: what the shrink cut off must not come back through DCH
+        cols = run.ctx.concretize(bv(scr(run.L, run.ses.screen, 'columns')))
+        run.call('resize', NONE, sym_opt_u32(ctx, 'rc%d' % idx, 1, cols + 1))
 
 
 def path_seq(ctx, job, box):
@@ -89,6 +93,8 @@ def path_seq(ctx, job, box):
     mx, my, _, _ = cursor_of(L, mid)
     cx = ctx.concretize(bv(mx))
     cy = ctx.concretize(bv(my))
+    cols = ctx.concretize(bv(scr(L, mid, 'columns')))
+    lines = ctx.concretize(bv(scr(L, mid, 'lines')))
     n = sym_opt_u32(ctx, 'last')
     run.call(last, n)
     if run.outcome == 'panic':
@@ -128,8 +134,8 @@ def jobs(tier):
                 js.append(Job('seq/%s>%s/%dx%d' % (f, last, g[0], g[1]), path_seq, seq=(f,), last=last, geom=g, prop=PROP))
     if tier == 'thorough':
         for g in [(2, 1), (3, 1)]:
-            for f1 in FIRST[:5]:
-                for f2 in FIRST[:5]:
+            for f1 in FIRST[:5] + FIRST[6:]:
+                for f2 in FIRST[:5] + FIRST[6:]:
                     for last in ('insert_characters', 'delete_characters'):
                         js.append(Job('seq/%s>%s>%s/%dx%d' % (f1, f2, last, g[0], g[1]), path_seq, seq=(f1, f2),
                                       last=last, geom=g, prop=PROP))
@@ -140,6 +146,6 @@ META = {
     'functions': ['insert_characters', 'delete_characters', 'erase_in_line', 'erase_characters', 'draw', 'default_char'],
     'bounds': 'rows of 1..3 (thorough 5) columns, every cell present/absent with distinct markers and symbolic '
               'renditions, cursor at every column incl. pending-wrap, counts absent or 0..=9999; sequences of one '
-              '(thorough two) first edits from {ICH, DCH, EL, ECH, draw, IRM-draw} followed by ICH/DCH on the same row',
+              '(thorough two) first edits from {ICH, DCH, EL, ECH, draw, IRM-draw, resize of the width} followed by ICH/DCH on the same row',
     'outside': 'wider rows; sequences longer than 2 (thorough 3) edits',
 }
